@@ -224,6 +224,17 @@ pub fn check_lattice(world: &World, t: &Tok, lat: &LatticeObs, m: &Matrix, path_
         }
     }
     rep.count("dictionary_candidates_expected_and_found", expected);
+    // ... and no dictionary candidate ends before a character that cannot start a word
+    for b in 0..lat.nodes.len() {
+        for node in &lat.nodes[b] {
+            if node.word_id >> 28 != 15 && node.end < lat.c2b.len() {
+                let eb = lat.c2b[node.end];
+                if eb < bytes.len() && !lat.can_bow[eb] {
+                    return Err(("unexpected_candidate".into(), format!("dictionary word {:#x} at chars {}..{} ends before a character that cannot start a word", node.word_id, node.begin, node.end)));
+                }
+            }
+        }
+    }
 
     // out-of-vocabulary candidates carry the parameters of one of the configured OOV definitions
     let mut allowed: Vec<(i32, i32, i32)> = vec![];
